@@ -125,7 +125,13 @@ def clause_echo_table(prog, rep, scope):
             for vname, dv in sorted(discr_of.items()):
                 entry = tg.get(dv, t["otherwise"])
                 areg = f.reachable_from(entry)
-                writes = sorted(set(c.name for c in f.live_calls() if c.bb in areg and K.is_storage_trait_call(c, *WRITE_CALLS)))
+                # the storage writes made in the arm: directly, or through a persistence helper (`self.save_message_record(..)`)
+                writes = set()
+                for w_ in WRITE_CALLS:
+                    rc_ = A.ReachCache(prog, lambda x, w_=w_: K.is_storage_trait_call(x, w_))
+                    if any(c.bb in areg and rc_.call(c) for c in f.live_calls()):
+                        writes.add(w_)
+                writes = sorted(writes)
                 consts = set()
                 for b2, s2 in f.stmts():
                     if b2 in areg and s2.get("k") == "agg" and last_seg(s2.get("adt")) in ("MessageState", "ProcessedMessageState") and not s2.get("o"):
